@@ -4,6 +4,9 @@ CONSTANTS MaxDepth = 4
           Vals <- MCVals
           Limits <- LimitsSim
           MaxClose = 2
+          DocAlpha <- DocsT
+          DocLen = 50
+          DocDepth = 4
           SimLen = 50
           SimLimits <- LimitsSim
 INVARIANTS SimInv
